@@ -126,11 +126,14 @@ theorem bytes_preserved_file {t t' : Tree} {x : Transfer} {src : Loc} {c : List 
       · exact ⟨rfl, (writeFile_ok h).1⟩
 
 /-- **bytes preserved (directory source)**: when copying a directory succeeds, every file below it (at relative path `rel`)
-is found at `destination/rel` with exactly its bytes -/
+is found at the destination the copier computes for it (`fileDest`) with exactly its bytes — provided the listed files go to
+pairwise different destinations (otherwise the last writer wins, in an order the tool does not fix) -/
 theorem bytes_preserved_dir {t t' : Tree} {x : Transfer} {src : Loc}
-    (hsrc : t.get src.path = some .dir) (h : copySource t x src = .ok t') (rel : Path) (c : List Nat)
+    (hsrc : t.get src.path = some .dir) (h : copySource t x src = .ok t')
+    (hinj : ∀ f ∈ filesUnder t src.path, ∀ g ∈ filesUnder t src.path, fileDest t x src f.1 = fileDest t x src g.1 → f.1 = g.1)
+    (rel : Path) (c : List Nat)
     (hrel : rel ≠ []) (hdom : (src.path ++ rel) ∈ t.dom) (hfile : t.get (src.path ++ rel) = some (.file c)) :
-    t'.get ((fullDest t x src).1 ++ rel) = some (.file c) := by
+    t'.get (fileDest t x src rel) = some (.file c) := by
   unfold copySource at h
   rw [hsrc] at h
   simp only at h
@@ -139,13 +142,15 @@ theorem bytes_preserved_dir {t t' : Tree} {x : Transfer} {src : Loc}
   · split at h
     · cases h
     · have hmem : (rel, c) ∈ filesUnder t src.path := mem_filesUnder.mpr ⟨hdom, hrel, hfile⟩
-      exact (writeAll_spec _ _ _ _ h).2.2.2.2 (filesUnder_functional t src.path) (rel, c) hmem
+      have hfun : ∀ f ∈ filesUnder t src.path, ∀ g ∈ filesUnder t src.path, fileDest t x src f.1 = fileDest t x src g.1 → f.2 = g.2 :=
+        fun f hf g hg he => filesUnder_functional t src.path f hf g hg (hinj f hf g hg he)
+      exact (writeAll_spec _ _ _ _ h).2.2.2.2 hfun (rel, c) hmem
 
 /-- the destinations of one source -/
 def destPaths (t : Tree) (x : Transfer) (src : Loc) : List Path :=
   match t.get src.path with
   | some (.file _) => [(fullDest t x src).1]
-  | some .dir => (filesUnder t src.path).map fun f => (fullDest t x src).1 ++ f.1
+  | some .dir => (filesUnder t src.path).map fun f => fileDest t x src f.1
   | none => []
 
 /-- **untouched elsewhere**: a successful copy changes nothing that exists and is not a destination, and creates nothing except
@@ -182,7 +187,7 @@ theorem untouched_elsewhere {t t' : Tree} {x : Transfer} {src : Loc} (h : copySo
       · split at h
         · cases h
         · obtain ⟨_, _, s3, s4, _⟩ := writeAll_spec _ _ _ _ h
-          have hne : ∀ f ∈ filesUnder t src.path, q ≠ (fullDest t x src).1 ++ f.1 := by
+          have hne : ∀ f ∈ filesUnder t src.path, q ≠ fileDest t x src f.1 := by
             intro f hf hc
             exact hq (List.mem_map.mpr ⟨f, hf, hc.symm⟩)
           refine ⟨s3 q hne, fun ha => s4 q fun f hf => ⟨hne f hf, ha _ (List.mem_map.mpr ⟨f, hf, rfl⟩)⟩⟩
@@ -294,37 +299,114 @@ theorem source_list_onto_target (t : Tree) (x : Transfer) (h : x.mode = .destIsT
 
 /-! ### the three ways to name the destination -/
 
-/-- DEST_DIR (and INFER_DEST with a trailing slash): always `dest/basename(src)` -/
+/-- DEST_DIR (and INFER_DEST with a trailing slash): `url_join(dest, url_basename(src.rstrip('/')))` -/
 theorem fullDest_dest_dir (t : Tree) (x : Transfer) (src : Loc) (h : x.mode = .destDir ∨ (x.mode = .inferDest ∧ x.dest.slash = true)) :
-    (fullDest t x src).1 = x.dest.path ++ [src.path.getLast?.getD ""] := by
+    (fullDestStr t x src).1 = urlJoin x.dest.raw (urlBasename (rstripSlash src.raw)) := by
   have : effMode x = .destDir := by
     unfold effMode
     rcases h with h | ⟨h1, h2⟩
     · simp [h]
     · simp [h1, h2]
-  simp [fullDest, this]
+  simp [fullDestStr, this]
 
-/-- DEST_IS_TARGET: always `dest` itself -/
-theorem fullDest_target (t : Tree) (x : Transfer) (src : Loc) (h : x.mode = .destIsTarget) : (fullDest t x src).1 = x.dest.path := by
+/-- DEST_IS_TARGET: always `dest` itself, verbatim -/
+theorem fullDest_target (t : Tree) (x : Transfer) (src : Loc) (h : x.mode = .destIsTarget) :
+    (fullDestStr t x src).1 = x.dest.raw ∧ (fullDest t x src).1 = x.dest.path := by
   have : effMode x = .destIsTarget := by simp [effMode, h]
-  unfold fullDest
-  simp only [this]
   have h1 : ¬ (Mode.destIsTarget = Mode.inferDest) := by decide
   have h2 : ¬ (Mode.destIsTarget = Mode.destDir) := by decide
-  simp only [h1, h2, false_and, or_self, if_false, true_and]
-  split <;> rfl
+  have hs : (fullDestStr t x src).1 = x.dest.raw := by
+    unfold fullDestStr
+    simp only [this, h1, h2, false_and, or_self, if_false, true_and]
+    split <;> rfl
+  exact ⟨hs, by simp [fullDest, hs, Loc.path]⟩
 
 /-- INFER_DEST without trailing slash and with a single source: into `dest` if it is an existing directory, else onto `dest` -/
 theorem fullDest_infer (t : Tree) (x : Transfer) (src : Loc) (h : x.mode = .inferDest) (hs : x.dest.slash = false)
     (h1 : x.single = true) :
-    (fullDest t x src).1 =
-      if t.get x.dest.path = some .dir then x.dest.path ++ [src.path.getLast?.getD ""] else x.dest.path := by
+    (fullDestStr t x src).1 =
+      if t.get x.dest.path = some .dir then urlJoin x.dest.raw (urlBasename (rstripSlash src.raw)) else x.dest.raw := by
   have hm : effMode x = .inferDest := by simp [effMode, h, hs]
-  unfold fullDest
+  unfold fullDestStr
   simp only [hm, destType, h1]
   cases hg : t.get x.dest.path with
   | none => simp
   | some n => cases n <;> simp [Node.kind]
+
+/-! ### `url_basename` / `url_join` versus file names
+
+The documented rule for copying *into* a directory is `dest/<last component of src>`, and a file below a directory source goes to
+`<full dest>/<relative path>`.  The copier computes both through `urllib.parse.urlparse`, which treats `#`, `?` and `;` as URL
+syntax even in a plain local path. -/
+
+/-- full statement: the name a source gets inside the destination directory is its last path component -/
+def BasenameIsLastComponent : Prop := ∀ s : Str, urlBasename s = osBasename s
+
+/-- **Finding** — a source named `report#1.txt` is copied to `dest/report` (likewise `?` and `;`). -/
+theorem basename_is_last_component_refuted : ¬ BasenameIsLastComponent := by
+  intro h
+  have := h ['/', 's', '/', 'r', '#', '1']
+  revert this
+  decide
+
+/-- full statement: joining a relative path onto a destination appends it -/
+def JoinAppends : Prop := ∀ d rel : Str, urlJoin d rel = osJoin d rel
+
+/-- **Finding** — with a destination directory named `out#v2`, `url_join` puts the file next to `out`: `/d/out/f#v2`. -/
+theorem join_appends_refuted : ¬ JoinAppends := by
+  intro h
+  have := h ['/', 'd', '/', 'o', '#', '2'] ['f']
+  revert this
+  decide
+
+/-- a string free of URL syntax: no `#`, `?`, `;`, and not a `file://` URL -/
+def PlainPath (s : Str) : Prop := '#' ∉ s ∧ '?' ∉ s ∧ ';' ∉ s ∧ stripFilePrefix s = ([], s)
+
+private theorem takeWhile_all (p : Char → Bool) : ∀ s : Str, (∀ a ∈ s, p a = true) → s.takeWhile p = s ∧ s.dropWhile p = []
+  | [], _ => ⟨rfl, rfl⟩
+  | a :: s, h => by
+    have ha := h a List.mem_cons_self
+    have := takeWhile_all p s (fun b hb => h b (List.mem_cons_of_mem _ hb))
+    simp [List.takeWhile, List.dropWhile, ha, this.1, this.2]
+
+private theorem mem_of_mem_takeWhile' (p : Char → Bool) (x : Char) : ∀ s : Str, x ∈ s.takeWhile p → x ∈ s
+  | [], h => by simp at h
+  | a :: s, h => by
+    simp only [List.takeWhile] at h
+    split at h
+    · rcases List.mem_cons.mp h with rfl | h'
+      · exact List.mem_cons_self
+      · exact List.mem_cons_of_mem _ (mem_of_mem_takeWhile' p x s h')
+    · simp at h
+
+private theorem cutAt_absent (c : Char) (s : Str) (h : c ∉ s) : cutAt c s = (s, []) := by
+  have := takeWhile_all (fun x => decide (x ≠ c)) s (fun a ha => by
+    simp only [ne_eq, decide_not, Bool.not_eq_eq_eq_not, Bool.not_true, decide_eq_false_iff_not]
+    intro hc; exact h (hc ▸ ha))
+  unfold cutAt
+  rw [this.1, this.2]
+  rfl
+
+private theorem dir_last (s : Str) :
+    (s.reverse.dropWhile (· ≠ '/')).reverse ++ (s.reverse.takeWhile (· ≠ '/')).reverse = s := by
+  rw [← List.reverse_append, List.takeWhile_append_dropWhile, List.reverse_reverse]
+
+/-- **partial**: on plain paths `urlparse` is the identity on the path -/
+theorem urlparse_plain (s : Str) (h : PlainPath s) : urlparse s = ⟨[], s, [], [], []⟩ := by
+  obtain ⟨h1, h2, h3, h4⟩ := h
+  have hl : ';' ∉ (s.reverse.takeWhile (· ≠ '/')).reverse := by
+    intro hm
+    have := mem_of_mem_takeWhile' _ _ _ (List.mem_reverse.mp hm)
+    exact h3 (List.mem_reverse.mp this)
+  simp only [urlparse, h4, cutAt_absent '#' s h1, cutAt_absent '?' s h2, cutAt_absent ';' _ hl, dir_last, if_true]
+
+/-- **partial** of `BasenameIsLastComponent`: names without `#`, `?`, `;` -/
+theorem basename_is_last_component_partial (s : Str) (h : PlainPath s) : urlBasename s = osBasename s := by
+  simp [urlBasename, urlparse_plain s h]
+
+/-- **partial** of `JoinAppends`: destinations without `#`, `?`, `;` -/
+theorem join_appends_partial (d rel : Str) (h : PlainPath d) : urlJoin d rel = osJoin d rel := by
+  simp [urlJoin, urlparse_plain d h, urlunparse]
 
 /-! ## Non-vacuity -/
 
